@@ -8,7 +8,11 @@ package main
 
 import (
 	"bytes"
+	"encoding/json"
 	"fmt"
+	"os"
+	"path/filepath"
+	"reflect"
 	"regexp"
 	"sort"
 	"strings"
@@ -85,8 +89,8 @@ func c18Snapshot(m *rm.Model, h *rm.Host) c18HostSnap {
 func c18IsDigestTagName(t string) bool { return c18ReDigestTag.MatchString(t) }
 
 var (
-	c18ReFallback  = regexp.MustCompile(`^sha(256-[0-9a-f]{64}|512-[0-9a-f]{128})$`)
-	c18ReDigestTag = regexp.MustCompile(`^sha(256-[0-9a-f]{64}|512-[0-9a-f]{128}).+$`)
+	c18ReFallback  = regexp.MustCompile(`^sha(256-[0-9a-f]{64}|512-[0-9a-f]{64}|512-[0-9a-f]{128})$`)
+	c18ReDigestTag = regexp.MustCompile(`^sha(256|512)-[0-9a-f]{64}.+$`)
 )
 
 // c18PutGraph stores a pool image raw: the whole graph (all manifests, blobs and
@@ -137,7 +141,7 @@ func c18Fallbacks(r *rm.Repo) {
 		body := []byte(`{"schemaVersion":2,"mediaType":"` + rm.MTOCIIndex + `","manifests":` + c18JSON(descs) + `}`)
 		d := rm.Digest("sha256", body)
 		r.Manifests[d] = &rm.Manifest{MediaType: rm.MTOCIIndex, Body: body}
-		r.Tags[strings.Replace(s, ":", "-", 1)] = d
+		r.Tags[rm.FallbackTag(s)] = d
 	}
 }
 
@@ -205,6 +209,7 @@ type c18Opts struct {
 	DigestTags, Referrers, FastCheck, Force bool
 	MediaTypes                              []string
 	Backup                                  []c18Part
+	RefFilters                              []c18RefFilter
 }
 
 func c18Sel(e, d *bool) bool {
@@ -233,6 +238,10 @@ func c18Resolve(e c18Entry, d c18Defaults) c18Opts {
 	if len(o.Backup) == 0 {
 		o.Backup = d.Backup
 	}
+	o.RefFilters = e.RefFilters
+	if len(o.RefFilters) == 0 {
+		o.RefFilters = d.RefFilters
+	}
 	return o
 }
 
@@ -254,6 +263,8 @@ type c18Exp struct {
 	NoCand    bool            // ... but no entry of that os/arch exists: not judged
 	Divergent bool            // selection differs under textual anchoring (known defect class)
 	Opt       c18Opts
+	Src       *c18RepoSnap // raw source storage (registry repository or OCI layout) before the run
+	Platforms []string     // `platforms:` list of the entry (index entries of other platforms are not copied)
 }
 
 // c18PlatformCandidates returns the digests of the top-level entries of an
@@ -279,6 +290,24 @@ func c18PlatformCandidates(body []byte, plat string) []string {
 		}
 	}
 	return out
+}
+
+// c18PlatformString renders a descriptor's platform as os/arch[/variant] ("" when absent).
+func c18PlatformString(p map[string]any) string {
+	if p == nil {
+		return ""
+	}
+	osn, _ := p["os"].(string)
+	arch, _ := p["architecture"].(string)
+	v, _ := p["variant"].(string)
+	if osn == "" {
+		return ""
+	}
+	s := osn + "/" + arch
+	if v != "" {
+		s += "/" + v
+	}
+	return s
 }
 
 func c18IsList(mt string) bool { return mt == rm.MTOCIIndex || mt == rm.MTDocker2List }
@@ -308,12 +337,27 @@ type c18Plan struct {
 	Labels     map[string]int
 }
 
-func c18Expect(c c18Case, srcPre c18HostSnap, names c18Names) *c18Plan {
+func c18Expect(c c18Case, srcPre, dirPre c18HostSnap, names c18Names) *c18Plan {
 	p := &c18Plan{Exps: map[c18K]*c18Exp{}, ExemptKeys: map[c18K]bool{}, DivKeys: map[c18K]bool{}, DivRepos: map[[2]string]bool{}, Targeted: map[[2]string]bool{},
 		DTRepos: map[[2]string]bool{}, EntryRepo: map[int][][2]string{}, Labels: map[string]int{}}
 	for i, e := range c.Entries {
 		opt := c18Resolve(e, c.Def)
 		th := e.tgtHost()
+		if e.TgtDir {
+			th = "dir"
+		}
+		tgtRepoOf := func(r string) string {
+			if e.TgtDir {
+				return c18DirKey("tgt", r)
+			}
+			return r
+		}
+		srcSnap := func(r string) *c18RepoSnap {
+			if e.SrcDir {
+				return dirPre[c18DirKey("src", r)]
+			}
+			return srcPre[r]
+		}
 		// a tag mirrored only under textual anchoring drags its backup name along
 		markDiv := func(k c18K) {
 			p.DivKeys[k] = true
@@ -326,9 +370,13 @@ func c18Expect(c c18Case, srcPre c18HostSnap, names c18Names) *c18Plan {
 				}
 			}
 		}
-		addTag := func(srcRepo, srcTag, tgtRepo, tgtTag string, divergent bool) {
-			rs := srcPre[srcRepo]
+		addTag := func(srcRepo, srcTag, tgtRepo, tgtTag string, divergent bool, byDigest string) {
+			rs := srcSnap(srcRepo)
+			tgtRepo = tgtRepoOf(tgtRepo)
 			d, ok := rs.tag(srcTag)
+			if byDigest != "" {
+				d, ok = byDigest, rs != nil && rs.Man[byDigest] != nil
+			}
 			if !ok {
 				return
 			}
@@ -350,7 +398,7 @@ func c18Expect(c c18Case, srcPre c18HostSnap, names c18Names) *c18Plan {
 				return
 			}
 			x := &c18Exp{Entry: i, Type: e.Type, SrcRepo: srcRepo, SrcTag: srcTag, K: c18K{th, tgtRepo, tgtTag}, SrcDigest: d, SrcMT: mf.MediaType,
-				Accept: map[string]bool{}, Divergent: divergent, Opt: opt}
+				Accept: map[string]bool{}, Divergent: divergent, Opt: opt, Src: rs, Platforms: e.Platforms}
 			if !c18Contains(opt.MediaTypes, mf.MediaType) {
 				x.SkipMT = true
 			} else if e.Platform != "" && c18IsList(mf.MediaType) {
@@ -365,19 +413,19 @@ func c18Expect(c c18Case, srcPre c18HostSnap, names c18Names) *c18Plan {
 			} else {
 				x.Accept[d] = true
 			}
-			if old, dup := p.Exps[x.K]; dup && (old.SrcDigest != x.SrcDigest || old.Entry != x.Entry) {
-				p.Conflict = true
+			if old, dup := p.Exps[x.K]; dup && old.Entry != x.Entry && !reflect.DeepEqual(c.Entries[old.Entry], c.Entries[x.Entry]) {
+				p.Conflict = true // only an exact duplicate of a step may write the same target
 			}
 			p.Exps[x.K] = x
 		}
 		doRepo := func(srcRepo, tgtRepo string, repoDiv bool) {
-			key := [2]string{th, tgtRepo}
+			key := [2]string{th, tgtRepoOf(tgtRepo)}
 			p.Targeted[key] = true
 			if opt.DigestTags {
 				p.DTRepos[key] = true
 			}
 			p.EntryRepo[i] = append(p.EntryRepo[i], key)
-			rs := srcPre[srcRepo]
+			rs := srcSnap(srcRepo)
 			if rs == nil {
 				return
 			}
@@ -387,24 +435,28 @@ func c18Expect(c c18Case, srcPre c18HostSnap, names c18Names) *c18Plan {
 			for _, t := range tags {
 				div := repoDiv || selW[t] != selB[t]
 				if selW[t] {
-					addTag(srcRepo, t, tgtRepo, t, div)
+					addTag(srcRepo, t, tgtRepo, t, div, "")
 				} else {
 					p.Excluded++
 					if selB[t] {
-						markDiv(c18K{th, tgtRepo, t})
+						markDiv(c18K{th, tgtRepoOf(tgtRepo), t})
 					}
 				}
 			}
 		}
 		switch e.Type {
 		case "image":
-			key := [2]string{th, e.TgtRepo}
+			key := [2]string{th, tgtRepoOf(e.TgtRepo)}
 			p.Targeted[key] = true
 			if opt.DigestTags {
 				p.DTRepos[key] = true
 			}
 			p.EntryRepo[i] = append(p.EntryRepo[i], key)
-			addTag(e.SrcRepo, e.SrcTag, e.TgtRepo, e.TgtTag, false)
+			byDigest := ""
+			if e.SrcForm == "digest" || e.SrcForm == "tagdigest" {
+				byDigest = c18EntryDigest(c, e) // the digest wins over the tag of a tag@digest reference
+			}
+			addTag(e.SrcRepo, e.SrcTag, e.TgtRepo, e.TgtTag, false, byDigest)
 		case "repository":
 			doRepo(e.SrcRepo, e.TgtRepo, false)
 		case "registry":
@@ -494,6 +546,7 @@ type c18StepCtx struct {
 	Names          c18Names
 	SrcPre, SrcPos c18HostSnap
 	TgtPre, TgtPos c18HostSnap
+	DirPre, DirPos c18HostSnap // OCI layouts, keyed "src/<repo>" / "tgt/<repo>"
 	Log            []*rm.Entry
 	Plan           *c18Plan
 	ArtChild       map[string]bool // artifact manifests that are index entries (C03 known finding: not required)
@@ -506,22 +559,31 @@ type c18Stats struct {
 }
 
 func (x *c18StepCtx) pre(host string) c18HostSnap {
-	if host == "src" {
+	switch host {
+	case "src":
 		return x.SrcPre
+	case "dir":
+		return x.DirPre
 	}
 	return x.TgtPre
 }
 
 func (x *c18StepCtx) post(host string) c18HostSnap {
-	if host == "src" {
+	switch host {
+	case "src":
 		return x.SrcPos
+	case "dir":
+		return x.DirPos
 	}
 	return x.TgtPos
 }
 
 func (x *c18StepCtx) addr(host string) string {
-	if host == "src" {
+	switch host {
+	case "src":
 		return x.Names.SrcAddr
+	case "dir":
+		return "(no request log for a layout)"
 	}
 	return x.Names.TgtAddr
 }
@@ -631,6 +693,11 @@ func (x *c18StepCtx) judgeOnce() []*evid.Violation {
 			x.Stats.PlatformApplied++
 		}
 		acceptIndexToo := e.Platform && hadP && P == e.SrcDigest // target already held the source's index: either outcome is accepted
+		if x.C.Steps[x.Step].Missing && hadP && hasQ && Q == P {
+			// --missing: "Only copy tags that are missing on target"; a tag that exists there is left alone
+			x.Labels["missing-flag:existing-tag-left-alone"]++
+			continue
+		}
 		if !hasQ {
 			vs = append(vs, x.v(e.Divergent, "selected-tag-missing-at-target", "entry %d (%s): source %s:%s (%s) is selected but target %s does not exist after the run", e.Entry, e.Type, e.SrcRepo, e.SrcTag, e.SrcDigest, k))
 			continue
@@ -648,14 +715,71 @@ func (x *c18StepCtx) judgeOnce() []*evid.Violation {
 			continue
 		}
 		// closure, as in C03
-		srcR := x.SrcPre[e.SrcRepo]
+		srcR := e.Src
+		isDir := k.Host == "dir"
 		rootMT := ""
 		if mf := srcR.Man[Q]; mf != nil {
 			rootMT = mf.MediaType
 		}
 		ao := audit.Opts{Referrers: e.Opt.Referrers, DigestTags: e.Opt.DigestTags}
+		if e.Opt.Referrers && len(e.Opt.RefFilters) > 0 {
+			// a referrer is wanted when any filter matches: artifactType equal (if given) and every annotation
+			// present with the given value (any value when the filter's value is empty)
+			fs := e.Opt.RefFilters
+			ao.RefFilter = func(desc map[string]any) bool {
+				at, _ := desc["artifactType"].(string)
+				ann, _ := desc["annotations"].(map[string]string)
+				for _, f := range fs {
+					ok := f.ArtifactType == "" || f.ArtifactType == at
+					for fk, fv := range f.Annotations {
+						if dv, has := ann[fk]; !has || (fv != "" && fv != dv) {
+							ok = false
+						}
+					}
+					if ok {
+						return true
+					}
+				}
+				return false
+			}
+		}
+		// `platforms:` copies an index with only the entries of the listed platforms: every digest that some index
+		// of the source lists with another (or no) platform is not required
+		platExcluded := map[string]bool{}
+		if len(e.Platforms) > 0 && !e.Platform {
+			for _, mf := range srcR.Man {
+				if !c18IsList(mf.MediaType) {
+					continue
+				}
+				pm, err := rm.ParseManifest(mf.Body)
+				if err != nil {
+					continue
+				}
+				for _, rf := range pm.Refs {
+					if !c18Contains(e.Platforms, c18PlatformString(rf.Platform)) {
+						platExcluded[rf.Digest] = true
+					}
+				}
+			}
+			if isDir {
+				for d, b := range srcR.Blobs { // a layout snapshot keeps untagged manifests as plain files
+					if len(b) == 0 || b[0] != '{' {
+						continue
+					}
+					if pm, err := rm.ParseManifest(b); err == nil && pm.IsIndex {
+						_ = d
+						for _, rf := range pm.Refs {
+							if !c18Contains(e.Platforms, c18PlatformString(rf.Platform)) {
+								platExcluded[rf.Digest] = true
+							}
+						}
+					}
+				}
+			}
+			delete(platExcluded, Q)
+		}
 		ao.Exempt = func(d string, root bool) int {
-			if x.ArtChild[d] && d != Q {
+			if (x.ArtChild[d] || platExcluded[d]) && d != Q {
 				return 2
 			}
 			return c18ExemptLevel(e.Opt, preR, P, Q, d)
@@ -667,6 +791,10 @@ func (x *c18StepCtx) judgeOnce() []*evid.Violation {
 		for _, d := range c18SortedKeys(res.Content) {
 			if x.ArtChild[d] && d != Q {
 				x.Labels["exempt:artifact-index-entry"]++
+				continue
+			}
+			if platExcluded[d] {
+				x.Labels["exempt:index-entry-of-unlisted-platform"]++
 				continue
 			}
 			want := res.Content[d]
@@ -681,6 +809,12 @@ func (x *c18StepCtx) judgeOnce() []*evid.Violation {
 			if _, isM := res.Manifests[d]; isM {
 				kind = "manifest"
 			}
+			if !ok && isDir && preR.has(d) && ao.Exempt(d, false) > 0 {
+				// as in C03: content that pre-existed in a layout and was trusted (not pushed again) may be
+				// garbage to the layout's collector
+				x.Labels["exempt:layout-trusted-content-collected"]++
+				continue
+			}
 			if !ok {
 				sig := "selected-tag-closure-" + kind + "-missing"
 				if acceptIndexToo && Q == e.SrcDigest {
@@ -693,6 +827,29 @@ func (x *c18StepCtx) judgeOnce() []*evid.Violation {
 			if !bytes.Equal(got, want) {
 				vs = append(vs, x.v(e.Divergent, "selected-tag-closure-"+kind+"-differs", "entry %d: %s %s differs at the target", e.Entry, kind, d))
 				break
+			}
+		}
+		// observation only (NOT asserted: the statement speaks of tags and repositories that stay untouched, not of
+		// additional untagged manifests in the target repository of a selected tag): a referrer the configured
+		// referrerFilters exclude was copied nevertheless
+		if ao.RefFilter != nil && e.Type == "image" && x.C.SrcFeat.Referrers && !x.C.Entries[e.Entry].SrcDir && !e.Opt.DigestTags {
+			// (single tag, no fallback tags at the source, no digest tags: nothing else can have brought the manifest)
+			all := ao
+			all.RefFilter = nil
+			resAll := audit.ClosureEx(srcR.view(), Q, rootMT, all)
+			for _, d := range c18SortedKeys(resAll.Manifests) {
+				if _, wanted := res.Content[d]; !wanted && posR.has(d) && !preR.has(d) {
+					both := false
+					for _, f := range e.Opt.RefFilters {
+						both = both || (f.ArtifactType != "" && len(f.Annotations) > 0)
+					}
+					if both {
+						x.Labels["observed(not asserted):filtered-out-referrer-copied/filter-with-artifactType+annotations"]++
+					} else {
+						x.Labels["observed(not asserted):filtered-out-referrer-copied/other"]++
+					}
+					break
+				}
 			}
 		}
 		// backup bookkeeping: the tag was overwritten
@@ -726,7 +883,33 @@ func (x *c18StepCtx) judgeOnce() []*evid.Violation {
 			P, _ := preR.tag(e.K.Tag)
 			Q, _ := x.post(e.K.Host)[e.K.Repo].tag(e.K.Tag)
 			stale := e.Platform && P == e.SrcDigest
+			// the previous image must have been complete (an index mirrored with a `platforms:` list is not: its
+			// backup copy fails, which regsync only warns about by design)
+			mt := ""
+			if mf := preR.Man[P]; mf != nil {
+				mt = mf.MediaType
+			}
+			res := audit.ClosureEx(preR.view(), P, mt, audit.Opts{})
+			if len(res.Problems) > 0 {
+				x.Labels["backup:previous-image-incomplete(not judged)"]++
+				continue
+			}
+			if e.K.Host == "dir" {
+				// a layout has no request log: judged on the final state, and only when the backup name is not shared
+				if len(backups[bk]) > 1 || p.ExemptKeys[bk] {
+					x.Labels["backup:layout-shared-backup-name(not judged)"]++
+					continue
+				}
+				if B, _ := posB.tag(bk.Tag); B != P {
+					vs = append(vs, x.v(e.Divergent, "overwritten-without-backup", "entry %d: layout tag %s was overwritten (%s -> %s) with backup template %q configured, but backup name %s resolves to %q after the run",
+						e.Entry, e.K, P, Q, c18TemplateText(e.Opt.Backup, 0), bk, B))
+					continue
+				}
+			}
 			over := -1
+			if e.K.Host == "dir" {
+				over = 0
+			}
 			for _, le := range x.Log {
 				if le.Class == "manifest-put" && le.Status == 201 && le.Host == x.addr(e.K.Host) && le.Repo == e.K.Repo && le.Ref == e.K.Tag {
 					over = le.Seq
@@ -752,6 +935,9 @@ func (x *c18StepCtx) judgeOnce() []*evid.Violation {
 					later = le.Seq
 				}
 			}
+			if e.K.Host == "dir" {
+				held = P // established on the final state above
+			}
 			if held != P {
 				sig := "overwritten-without-backup"
 				switch {
@@ -766,19 +952,10 @@ func (x *c18StepCtx) judgeOnce() []*evid.Violation {
 					e.Entry, e.K, P, Q, over, c18TemplateText(e.Opt.Backup, 0), bk, held, heldBy, later))
 				continue
 			}
-			if heldBy < 0 {
+			if heldBy < 0 && e.K.Host != "dir" {
 				x.Labels["backup:name-already-held-previous-image"]++
 			}
 			// completeness of the backed-up image (plain closure taken from the pre-run target repository)
-			mt := ""
-			if mf := preR.Man[P]; mf != nil {
-				mt = mf.MediaType
-			}
-			res := audit.ClosureEx(preR.view(), P, mt, audit.Opts{})
-			if len(res.Problems) > 0 {
-				x.Labels["backup:previous-image-incomplete(not judged)"]++
-				continue
-			}
 			for _, d := range c18SortedKeys(res.Content) {
 				if x.ArtChild[d] && d != P {
 					continue
@@ -791,7 +968,7 @@ func (x *c18StepCtx) judgeOnce() []*evid.Violation {
 		}
 	}
 	// --- nothing else is touched
-	for _, host := range []string{"src", "tgt"} {
+	for _, host := range []string{"src", "tgt", "dir"} {
 		pre, pos := x.pre(host), x.post(host)
 		names := map[string]bool{}
 		for n := range pre {
@@ -804,6 +981,9 @@ func (x *c18StepCtx) judgeOnce() []*evid.Violation {
 			if host == "src" && c18IsSrcRepo(c, rn) {
 				continue // judged by the source clause
 			}
+			if host == "dir" && strings.HasPrefix(rn, "src/") {
+				continue // judged by the source clause
+			}
 			key := [2]string{host, rn}
 			preR, posR := pre[rn], pos[rn]
 			repoDiv := p.DivRepos[key]
@@ -814,8 +994,10 @@ func (x *c18StepCtx) judgeOnce() []*evid.Violation {
 				continue
 			}
 			// targeted repository: nothing may disappear or change, tags outside the expectation stay
-			if d := c18RepoDiff(preR, posR, false); d != "" {
-				vs = append(vs, x.v(repoDiv, "target-content-removed", "repository %s/%s: %s", host, rn, d))
+			if host != "dir" { // a layout's garbage collector legitimately removes unreferenced content
+				if d := c18RepoDiff(preR, posR, false); d != "" {
+					vs = append(vs, x.v(repoDiv, "target-content-removed", "repository %s/%s: %s", host, rn, d))
+				}
 			}
 			tags := map[string]bool{}
 			if preR != nil {
@@ -844,6 +1026,21 @@ func (x *c18StepCtx) judgeOnce() []*evid.Violation {
 				if hadP == hasQ && P == Q {
 					if !p.DivKeys[k] {
 						x.Stats.Excluded++
+					}
+					if host == "dir" && hadP && !c18ReFallback.MatchString(t) {
+						// the image of an untouched layout tag must survive the garbage collection of the run
+						mt := ""
+						if mf := preR.Man[P]; mf != nil {
+							mt = mf.MediaType
+						}
+						if res := audit.ClosureEx(preR.view(), P, mt, audit.Opts{}); len(res.Problems) == 0 {
+							for _, d := range c18SortedKeys(res.Content) {
+								if !posR.has(d) {
+									vs = append(vs, x.v(false, "layout-unselected-tag-content-lost", "layout %s: tag %s (%s) was not selected and still resolves to the same digest, but %s of its image is gone after the run", rn, t, P, d))
+									break
+								}
+							}
+						}
 					}
 					continue
 				}
@@ -933,6 +1130,14 @@ func (x *c18StepCtx) judgeSource() []*evid.Violation {
 			vs = append(vs, x.v(false, "source-changed", "source repository %s: %s", r.Name, d))
 		}
 	}
+	for _, rn := range c18SortedKeys(x.DirPre) {
+		if !strings.HasPrefix(rn, "src/") {
+			continue
+		}
+		if d := c18RepoDiff(x.DirPre[rn], x.DirPos[rn], true); d != "" {
+			vs = append(vs, x.v(false, "source-changed", "source layout %s: %s", rn, d))
+		}
+	}
 	return vs
 }
 
@@ -949,7 +1154,7 @@ func (x *c18StepCtx) judgeCheck() []*evid.Violation {
 			break
 		}
 	}
-	for _, host := range []string{"src", "tgt"} {
+	for _, host := range []string{"src", "tgt", "dir"} {
 		pre, pos := x.pre(host), x.post(host)
 		names := map[string]bool{}
 		for n := range pre {
@@ -991,4 +1196,123 @@ func (x *c18StepCtx) judgeRerun() []*evid.Violation {
 		}
 	}
 	return vs
+}
+
+// ----------------------------------------------------------------- OCI layouts
+
+// c18WriteLayout writes a repository raw as an OCI layout directory: every blob
+// and manifest as blobs/<alg>/<hex>, every tag as an index.json entry.
+func c18WriteLayout(dir string, r *rm.Repo) error {
+	if err := os.RemoveAll(dir); err != nil {
+		return err
+	}
+	write := func(d string, data []byte) error {
+		alg, hx, ok := strings.Cut(d, ":")
+		if !ok {
+			return fmt.Errorf("bad digest %q", d)
+		}
+		p := filepath.Join(dir, "blobs", alg)
+		if err := os.MkdirAll(p, 0o777); err != nil {
+			return err
+		}
+		return os.WriteFile(filepath.Join(p, hx), data, 0o666)
+	}
+	if err := os.MkdirAll(filepath.Join(dir, "blobs", "sha256"), 0o777); err != nil {
+		return err
+	}
+	for d, b := range r.Blobs {
+		if err := write(d, b); err != nil {
+			return err
+		}
+	}
+	for d, m := range r.Manifests {
+		if err := write(d, m.Body); err != nil {
+			return err
+		}
+	}
+	entries := []any{}
+	for _, t := range c18SortedKeys(r.Tags) {
+		d := r.Tags[t]
+		m := r.Manifests[d]
+		if m == nil {
+			continue
+		}
+		entries = append(entries, map[string]any{"mediaType": m.MediaType, "digest": d, "size": len(m.Body),
+			"annotations": map[string]string{"org.opencontainers.image.ref.name": t}})
+	}
+	if err := os.WriteFile(filepath.Join(dir, "oci-layout"), []byte(`{"imageLayoutVersion":"1.0.0"}`), 0o666); err != nil {
+		return err
+	}
+	idx := `{"schemaVersion":2,"mediaType":"` + rm.MTOCIIndex + `","manifests":` + c18JSON(entries) + `}`
+	return os.WriteFile(filepath.Join(dir, "index.json"), []byte(idx), 0o666)
+}
+
+// c18ReadLayout snapshots a layout directory through plain file reads: tags
+// from index.json, every stored file as a blob, and as a manifest when
+// index.json names it or its body declares a manifest media type.
+func c18ReadLayout(dir string) *c18RepoSnap {
+	s := &c18RepoSnap{Tags: map[string]string{}, Man: map[string]*rm.Manifest{}, Blobs: map[string][]byte{}}
+	algs, _ := os.ReadDir(filepath.Join(dir, "blobs"))
+	for _, a := range algs {
+		if !a.IsDir() {
+			continue
+		}
+		fs, _ := os.ReadDir(filepath.Join(dir, "blobs", a.Name()))
+		for _, f := range fs {
+			b, err := os.ReadFile(filepath.Join(dir, "blobs", a.Name(), f.Name()))
+			if err != nil {
+				continue
+			}
+			d := a.Name() + ":" + f.Name()
+			s.Blobs[d] = b
+			if len(b) > 0 && b[0] == '{' {
+				var hdr struct {
+					MediaType string `json:"mediaType"`
+				}
+				if json.Unmarshal(b, &hdr) == nil && rm.IsManifestType(hdr.MediaType) {
+					s.Man[d] = &rm.Manifest{MediaType: hdr.MediaType, Body: b}
+				}
+			}
+		}
+	}
+	var idx struct {
+		Manifests []struct {
+			MediaType   string            `json:"mediaType"`
+			Digest      string            `json:"digest"`
+			Annotations map[string]string `json:"annotations"`
+		} `json:"manifests"`
+	}
+	if b, err := os.ReadFile(filepath.Join(dir, "index.json")); err == nil && json.Unmarshal(b, &idx) == nil {
+		for _, e := range idx.Manifests {
+			if body, ok := s.Blobs[e.Digest]; ok {
+				s.Man[e.Digest] = &rm.Manifest{MediaType: e.MediaType, Body: body}
+			}
+			if t := e.Annotations["org.opencontainers.image.ref.name"]; t != "" {
+				s.Tags[t] = e.Digest
+			}
+		}
+	}
+	return s
+}
+
+// c18DirSnapshot snapshots every layout below root, keyed by its path relative to root.
+func c18DirSnapshot(root string) c18HostSnap {
+	out := c18HostSnap{}
+	_ = filepath.WalkDir(root, func(p string, d os.DirEntry, err error) error {
+		if err != nil || !d.IsDir() {
+			return nil
+		}
+		if _, e1 := os.Stat(filepath.Join(p, "index.json")); e1 == nil {
+			rel, _ := filepath.Rel(root, p)
+			out[filepath.ToSlash(rel)] = c18ReadLayout(p)
+			return filepath.SkipDir
+		}
+		if _, e2 := os.Stat(filepath.Join(p, "oci-layout")); e2 == nil {
+			rel, _ := filepath.Rel(root, p)
+			out[filepath.ToSlash(rel)] = c18ReadLayout(p)
+			return filepath.SkipDir
+		}
+		return nil
+	})
+	return out
 }
